@@ -63,6 +63,43 @@ pub fn worker_main(def: &PropDef, tier: Tier, seed: u64, start: u64, stride: u64
     }
 }
 
+/// In-process run of `count` scenarios of the tiny tier (indices shard, shard+nshards, ...): the workload that is
+/// executed under an interpreter / sanitizer. Prints one summary line; exit 0 silent, 1 oracle violation.
+pub fn tiny_main(def: &PropDef, seed: u64, shard: u64, nshards: u64, count: u64) -> i32 {
+    crate::install_quiet_panic_hook();
+    crate::SIZE_CAP.store(600, std::sync::atomic::Ordering::Relaxed);
+    let env = Env { tier: Tier::Tiny, seed, verbose: false };
+    let total = (def.total)(Tier::Tiny);
+    let mut merged = Delta::default();
+    let mut ran = 0u64;
+    for i in 0..count {
+        let k = (shard + i * nshards.max(1)) % total.max(1);
+        let mut d = Delta::default();
+        (def.run)(&env, k, &mut d);
+        ran += 1;
+        merged.evaluations += d.evaluations;
+        merged.fingerprints.extend(d.fingerprints);
+        for (t, n) in d.tallies {
+            *merged.tallies.entry(t).or_insert(0) += n;
+        }
+        merged.violations.extend(d.violations);
+    }
+    let known = load_known();
+    let mut sigs: BTreeSet<String> = BTreeSet::new();
+    for v in &merged.violations {
+        let is_known = known.iter().any(|k| k.property == def.id && k.status == "known" && k.signatures.iter().any(|s| *s == v.signature));
+        if !is_known && !is_harness_panic(&v.signature) {
+            sigs.insert(v.signature.clone());
+        }
+    }
+    let ops: u64 = merged.tallies.values().sum();
+    println!(
+        "TINY-DONE id={} seed={} shard={} scenarios={} evaluations={} nontrivial={} tallied_observations={} new_violation_signatures={:?}",
+        def.id, seed, shard, ran, merged.evaluations, merged.fingerprints.len(), ops, sigs
+    );
+    if sigs.is_empty() { 0 } else { 1 }
+}
+
 enum Msg {
     Delta(Delta),
     Crash { k: u64, stderr: String, code: Option<i32>, context: Option<Value> },
